@@ -116,6 +116,22 @@ UNITS.append(flow.Unit('ep-piston', groups=['piston'], props=['props/C02_piston.
                             'these states region by region (checked on the real code)'))
 
 
+import residual_corr as RSC
+import blackbox_rh_oracle as BBO
+UNITS.append(flow.Unit('blackbox-noh', groups=['residuals'], props=['props/C02_blackbox.v'], custom_corr=RSC.unit_corr, oracle=BBO.oracle, always_oracle=True,
+                       note='Noh with a black-box EOS: the residuals handed to the Newton solver (pressure and energy form) vanish iff the post-shock state at rest and '
+                            'the converging pre-shock state satisfy the three jump conditions, for every EOS value, symmetry and upstream pressure (theorems on the '
+                            'regenerated residual components); on the real residual classes each component is compared with the Rankine-Hugoniot defect computed '
+                            'from the textbook relations, with non-zero upstream pressure (every run)'))
+
+
+import rmtv_jump_oracle as RJO
+UNITS.append(flow.Unit('rmtv-isothermal-shock', groups=[], props=[], oracle=RJO.oracle, always_oracle=True,
+                       note='RMTV: the isothermal shock is located on the returned fields; the states on either side conserve momentum with the mass-conserving '
+                            'shock speed and carry the same temperature, for non-default Gruneisen coefficient, gamma, g0, chi0 (no theorem: the profile comes from '
+                            'ODE integration; the conversion tail is covered by C03 rmtv_eos)'))
+
+
 import guderley_corr as GDC
 import guderley_oracle as GDO
 UNITS.append(flow.Unit('guderley-shocks', groups=['guderley'], props=['props/C02_guderley.v'], custom_corr=GDC.unit_corr, oracle=GDO.jump_oracle, always_oracle=True,
